@@ -209,7 +209,9 @@ func main() {
 			gen("", 0)
 			for n, rs := range byLen {
 				n, rs := n, rs
-				t.DoN(int64(len(rs)*len(rs)), func() string { return fmt.Sprintf("every ordered pair of the %d reasons of %d bytes through one reused frame buffer", len(rs), n) }, func() *explore.Fail {
+				t.DoN(int64(len(rs)*len(rs)), func() string {
+					return fmt.Sprintf("every ordered pair of the %d reasons of %d bytes through one reused frame buffer", len(rs), n)
+				}, func() *explore.Fail {
 					for _, first := range rs {
 						for _, second := range rs {
 							body := ws.NewCloseFrameBody(1000, first)
@@ -361,6 +363,18 @@ func main() {
 									ws.PutCloseFrameBody(p, ws.StatusCode(c), reason)
 									if !bytes.Equal(p, body) {
 										return explore.Failf("PutCloseFrameBody", "differs from NewCloseFrameBody")
+									}
+								}
+								// in-place re-encode through the zero-copy parser: the reason handed to
+								// PutCloseFrameBody is a view of the very buffer it writes to
+								{
+									buf := append([]byte{}, body...)
+									_, view := ws.ParseCloseFrameDataUnsafe(buf)
+									other := ws.StatusCode(c ^ 1)
+									ws.PutCloseFrameBody(buf, other, view)
+									gc, gr := ws.ParseCloseFrameData(buf)
+									if gc != other || gr != wantReason {
+										return explore.Failf("PutCloseFrameBody-in-place", "re-encoding (%d,%q) in place as code %d gives (%d,%q)", c, wantReason, other, gc, gr)
 									}
 								}
 								f := ws.NewCloseFrame(body)
